@@ -21,7 +21,7 @@ Open Scope Z_scope.
    delivered by Accept, waiting in the backlog, taken aside by the adapter to be Closed, Closed by the
    adapter, or still at the delivery select; it was sent into the backlog at most once and received
    from it at most once, in FIFO order; and per session: streams arrived = streams still in acceptCh
-   + wrappers made *)
+   + wrappers made + streams closed unwrapped because the listener had already released the session *)
 Theorem C19_once : forall c evs, let st := run evs (init c) in
   recv_log st ++ backlog st = enq_log st /\
   NoDup (places st) /\
@@ -30,7 +30,8 @@ Theorem C19_once : forall c evs, let st := run evs (init c) in
   (forall w, (w < nwr st)%nat -> In w (places st) \/ loop (sess_of st (w_sess (wr st w))) = LSelecting w) /\
   (length (backlog st) <= cap st)%nat /\
   (forall s, (s < nsess st)%nat ->
-     arrived (sess_of st s) = (inq (sess_of st s) + count (fun w => Nat.eqb (w_sess (wr st w)) s) (nwr st))%nat).
+     arrived (sess_of st s) = (inq (sess_of st s) + count (fun w => Nat.eqb (w_sess (wr st w)) s) (nwr st)
+                               + refused (sess_of st s))%nat).
 Proof. exact once. Qed.
 Print Assumptions C19_once.
 
@@ -92,19 +93,21 @@ Print Assumptions C19_sessions_end_if_all_closed.
    already reached zero (the wg.Wait goroutine it released may not have returned yet)" *)
 Definition C19_no_waitgroup_reuse_full : Prop := forall c evs e, add_from_zero (run evs (init c)) e = false.
 
-(* FALSE of the faithful model (witness_reuse: listener.Close releases the last reference of a session, then
-   a stream of that session arrives and is wrapped) and reproduced on the real code: the process dies with
-   "sync: WaitGroup is reused before previous Wait has returned" (harness family stress/held=false). *)
-Theorem C19_waitgroup_reuse_refuted : ~ C19_no_waitgroup_reuse_full.
-Proof. exact waitgroup_reuse_refuted. Qed.
-Print Assumptions C19_waitgroup_reuse_refuted.
+(* TRUE of the repaired adapter (fix: the accept goroutine takes the stream's reference under l.mu and only
+   while the session is still in l.sessions, i.e. while the listener's own reference is held; otherwise it
+   closes the stream unwrapped).  Before the repair it was refuted (listener.Close releases the last
+   reference, then a stream of that session arrives and is wrapped) and the real process died with
+   "sync: WaitGroup is reused before previous Wait has returned"; regression: harness family stress/held=false
+   and the example below. *)
+Theorem C19_no_waitgroup_reuse : C19_no_waitgroup_reuse_full.
+Proof. exact no_waitgroup_reuse. Qed.
+Print Assumptions C19_no_waitgroup_reuse.
 
-(* strongest provable form: it happens only to a stream that arrives after the counter reached zero *)
-Theorem C19_partial_waitgroup_reuse_only_after_zero : forall c evs s, let st := run evs (init c) in
-  add_from_zero st (Wrap s) = true ->
-  wg_zero (sess_of st s) = true /\ in_map (sess_of st s) = false /\ open_w st s = O.
-Proof. exact waitgroup_reuse_only_after_zero. Qed.
-Print Assumptions C19_partial_waitgroup_reuse_only_after_zero.
+Example C19_regression_stream_after_release_is_refused :
+  let st := run witness_reuse (init 1) in
+  accepts (init 1) witness_reuse = true /\ nwr st = O /\ refused (sess_of st 0%nat) = 1%nat /\
+  refs (sess_of st 0%nat) = 0 /\ loop (sess_of st 0%nat) = LExited /\ sclosed (sess_of st 0%nat) = true.
+Proof. vm_compute. repeat split. Qed.
 
 (* io.Reader: Read(p) with p non-empty and data buffered returns no error and exactly the next
    min(len p, available) >= 1 bytes of the stream, leaving the rest, for every slicing of the data *)
